@@ -248,6 +248,13 @@ def compare_loop(r, trace, mo):
     code, payload, mtrace = v[1]
     if code in (10, 11):
         return 'skip:%s apportionment tied (model)' % ('party' if code == 10 else 'district')
+    import votelib.evaluate.core as core
+
+    def tie_in(res):
+        return any(isinstance(p, core.Tie) for row in res.values() for p in row)
+    if (r[0] == 'ok' and tie_in(r[1][0])) or any(tie_in(st[0]) for st in (trace or [])):
+        # (the model hands a tie inside a column to the first tied districts; a Tie KEY can only come out of a tied marginal)
+        return 'the implementation works on a matrix with a Tie key, the whole-loop model ends with code %d' % code
     itrace = [canon_impl_state(st) for st in (trace or [])]
     mtr = [canon_model_state(st) for st in mtrace]
     if code == 99 and len(itrace) >= LOOP_FUEL:
@@ -513,7 +520,10 @@ def judge_loop(ctx, stream, runs, holds):
                 # replay); if every explored output is certified the verdict is a broken tie without a failing input.
                 nd += 1
                 if not any(b[0].startswith('correspondence whole-loop') for b in ctx.broken_items):
-                    io = ok(enc_mat(r[1][0])) if r[0] == 'ok' else common.err(r[1])
+                    try:
+                        io = ok(enc_mat(r[1][0])) if r[0] == 'ok' else common.err(r[1])
+                    except Exception:   # noqa  (a Tie key in the matrix)
+                        io = repr(r[1][0])[:600]
                     ctx.broken('correspondence whole-loop model (Model/BipropLoop.v; theorems C07_evaluate_partial_correct, C07_evaluate_total_partial_correct)',
                                'stream %s: %s; case %s; implementation %s; model %s' % (stream, why, json.dumps(c)[:1500], io[:600], mo[:600]))
             elif sum(1 for x in ctx.notes if x.startswith('whole-loop model: tie lost')) < 3:
